@@ -45,7 +45,7 @@ fn c15_mask_stream_step() {
     assert!(AcceleratingByteMask::constant(m0.mask) == AcceleratingByteMask { mask: m0.mask, vel: 0, accel: 0 });
 }
 
-//@ C15 c15_mask_stream_closed_form quick default the k-th mask byte is mask + k*vel + k(k-1)/2*accel (mod 256) for k < 8 and every initial triple
+//@ C15 c15_mask_stream_closed_form quick default,bounded BOUNDED k < 8: the k-th mask byte is mask + k*vel + k(k-1)/2*accel (mod 256) for k < 8 and every initial triple
 #[kani::proof]
 #[kani::unwind(10)]
 fn c15_mask_stream_closed_form() {
